@@ -64,7 +64,8 @@ def endtime(x):
     if "endtime" in x.dtype.fields:
         return x["endtime"]
     else:
-        return x["time"] + x["length"] * x["dt"]
+        # length (int32) * dt (int16) can exceed int32
+        return x["time"] + x["length"].astype(np.int64) * x["dt"]
 
 
 # Jitting endtime needs special attention, since inspecting the dtype
@@ -75,7 +76,11 @@ def _overload_endtime(x):
     """Return endtime of intervals x."""
     if "endtime" in x.dtype.fields:
         return lambda x: x["endtime"]
+    elif isinstance(x, numba.types.Array):
+        # length (int32) * dt (int16) can exceed int32
+        return lambda x: x["time"] + x["length"].astype(np.int64) * x["dt"]
     else:
+        # Scalars are promoted to int64 by numba
         return lambda x: x["time"] + x["length"] * x["dt"]
 
 
